@@ -18,6 +18,11 @@
 //!   (vi)  the engine's own operator '<' (BIND and FILTER over every ordered pair of solutions) never
 //!         contradicts the output order,
 //!   (vii) a LIMIT/OFFSET window is the window of the complete ordered result, (viii) DISTINCT keeps the order.
+//! Context cases (kinds c:*, third part of the file): ORDER BY at every place of the algebra (top level, sub-select,
+//! sub-select under GRAPH <g> / GRAPH ?g, up to three SELECTs deep) over a default graph and named graphs that differ,
+//! with keys whose value depends on the active graph (EXISTS / NOT EXISTS, BOUND, IF, COALESCE, graph variables), and
+//!   (ix)  every key is evaluated in the active graph of the SELECT its ORDER BY belongs to: the oracle evaluates the
+//!         whole query as SPARQL 1.1 section 18 prescribes; LIMIT / OFFSET windows of the sub-selects make their order visible.
 //! The model receives, for every pool term, the value that the implementation itself parsed
 //! (Debug rendering of ResultTerm::value()), so that lexical parsing is not part of the model.
 use sophia_api::prelude::*;
@@ -939,6 +944,394 @@ impl Gen<'_> {
     }
 }
 
+// ================================================================ ORDER BY in its evaluation context (kinds c:*)
+// ORDER BY at every place the algebra allows it: at the top level, in a sub-select, in a sub-select under
+// GRAPH <g> { } and GRAPH ?g { }, nested up to three SELECTs deep, over a dataset whose named graphs differ from
+// the default graph, with sort keys whose VALUE depends on where they are evaluated: EXISTS / NOT EXISTS over a
+// triple pattern of the active graph, of a constant graph, of GRAPH ?x with ?x bound or not, BOUND(), IF and
+// COALESCE over such tests, variables bound by GRAPH ?g (unbound inside the sub-select, bound outside).
+// The oracle below evaluates the query as SPARQL 1.1 section 18 prescribes (each key in the active graph of the
+// SELECT it belongs to, EXISTS by substitution, 18.6) with its own term order (15.1: unbound < IRI < literal,
+// IRIs by code points, '<' on the values); the generator makes every ORDER BY free of ties (last resort: ?s and
+// the graph variable as final keys), so that the expected solutions of every LIMIT / OFFSET window of a
+// sub-select are determined: the window is what makes the inner order visible from outside.
+// The result is compared as a sequence when the outermost SELECT is ordered, as a multiset otherwise.
+// The Coq model (C14/Context.v) evaluates the same algebra with the model's comparator and is given the output.
+#[derive(Clone, Debug)] enum CNode { V(String), C(ST) }
+#[derive(Clone, Debug)] enum CGs { Active, Const(usize), Var(String) }
+#[derive(Clone, Debug)] struct CTp { s: CNode, p: &'static str, o: CNode }
+#[derive(Clone, Debug)] enum CE { Var(String), Const(ST), Exists(bool, CGs, CTp), Bound(String), Not(Box<CE>), Coalesce(Box<CE>, Box<CE>), If(Box<CE>, Box<CE>, Box<CE>) }
+#[derive(Clone, Debug)] enum CGraph { Const(usize), Var(String) }
+#[derive(Clone, Debug)] enum CPat { Base { link: bool, unb: bool, flip: bool }, Graph(CGraph, Box<CPat>), Sub(Box<CSel>) }
+#[derive(Clone, Debug)] struct CSel { proj: Vec<String>, selx: Vec<(CE, String)>, pat: CPat, order: Vec<(CE, bool)>, slice: Option<(usize, Option<usize>)> }
+type CQuad = ([ST; 3], Option<ST>);
+type CSol = Vec<(String, ST)>;
+#[derive(Debug)] enum CErr { Tie(usize), Undet(usize, usize) }
+const CVARS: [&str; 20] = ["s", "v", "h", "zz", "g", "g2", "g3", "w", "u", "e", "k0", "k1", "k2", "k3", "k4", "k5", "k6", "k7", "k8", "k9"];
+fn cvar_id(v: &str) -> usize { CVARS.iter().position(|x| *x == v).expect("variable of a context case") }
+fn cgname(k: usize) -> ST { iri(&format!("x:g{k}")) }
+fn cpred(p: &str) -> ST { iri(&format!("x:{p}")) }
+fn cbool(b: bool) -> ST { x(if b { "true" } else { "false" }, "boolean") }
+fn cget<'a>(b: &'a CSol, v: &str) -> Option<&'a ST> { b.iter().find(|p| p.0 == v).map(|p| &p.1) }
+fn cterm_txt(t: &ST) -> String {
+    match t { SimpleTerm::Iri(i) => format!("<{}>", i.as_str()), SimpleTerm::LiteralDatatype(l, d) => format!("\"{}\"^^<{}>", l, d.as_str()), _ => panic!("term of a context case") }
+}
+fn cnode_txt(n: &CNode) -> String { match n { CNode::V(v) => format!("?{v}"), CNode::C(t) => cterm_txt(t) } }
+fn ctp_txt(tp: &CTp) -> String { format!("{} <x:{}> {}", cnode_txt(&tp.s), tp.p, cnode_txt(&tp.o)) }
+fn ce_txt(e: &CE) -> String {
+    match e {
+        CE::Var(v) => format!("?{v}"), CE::Const(t) => cterm_txt(t), CE::Bound(v) => format!("BOUND(?{v})"), CE::Not(a) => format!("(! {})", ce_txt(a)),
+        CE::Exists(neg, gs, tp) => { let inner = match gs { CGs::Active => ctp_txt(tp), CGs::Const(k) => format!("GRAPH <x:g{k}> {{ {} }}", ctp_txt(tp)), CGs::Var(v) => format!("GRAPH ?{v} {{ {} }}", ctp_txt(tp)) }; format!("{}EXISTS {{ {inner} }}", if *neg { "NOT " } else { "" }) }
+        CE::Coalesce(a, b) => format!("COALESCE({}, {})", ce_txt(a), ce_txt(b)), CE::If(c, t, f) => format!("IF({}, {}, {})", ce_txt(c), ce_txt(t), ce_txt(f)),
+    }
+}
+fn ce_has_exists(e: &CE) -> bool { match e { CE::Exists(..) => true, CE::Not(a) => ce_has_exists(a), CE::Coalesce(a, b) => ce_has_exists(a) || ce_has_exists(b), CE::If(a, b, c) => ce_has_exists(a) || ce_has_exists(b) || ce_has_exists(c), _ => false } }
+fn cbase_tps(link: bool, alt: bool) -> Vec<CTp> {
+    let mut v = vec![if alt { CTp { s: CNode::V("s".into()), p: "n", o: CNode::V("zz".into()) } } else { CTp { s: CNode::V("s".into()), p: "v", o: CNode::V("v".into()) } }];
+    if link { v.push(CTp { s: CNode::V("s".into()), p: "in", o: CNode::V("h".into()) }); }
+    v
+}
+fn cpat_txt(p: &CPat) -> String {
+    match p {
+        CPat::Base { link, unb, flip } => {
+            let bgp = |alt: bool| cbase_tps(*link, alt).iter().map(|t| format!(" {} .", ctp_txt(t))).collect::<String>();
+            if *unb { let (a, b) = (format!("{{{} }}", bgp(false)), format!("{{{} }}", bgp(true))); if *flip { format!(" {b} UNION {a}") } else { format!(" {a} UNION {b}") } } else { bgp(false) }
+        }
+        CPat::Graph(CGraph::Const(k), inner) => format!(" GRAPH <x:g{k}> {{{} }}", cpat_txt(inner)),
+        CPat::Graph(CGraph::Var(v), inner) => format!(" GRAPH ?{v} {{{} }}", cpat_txt(inner)),
+        CPat::Sub(sel) => format!(" {{ {} }}", csel_txt(sel)),
+    }
+}
+fn csel_columns(sel: &CSel) -> Vec<String> { sel.proj.iter().cloned().chain(sel.selx.iter().map(|x| x.1.clone())).collect() }
+fn csel_txt(sel: &CSel) -> String { csel_txt_from(sel, None) }
+fn csel_txt_from(sel: &CSel, from: Option<usize>) -> String {
+    let mut q = String::from("SELECT");
+    for v in &sel.proj { q.push_str(&format!(" ?{v}")); }
+    for (e, v) in &sel.selx { q.push_str(&format!(" ({} AS ?{v})", ce_txt(e))); }
+    // a sub-select directly inside the braces of the WHERE clause needs no braces of its own
+    let body = match &sel.pat { CPat::Sub(inner) => format!(" {{ {} }}", csel_txt(inner)), p => cpat_txt(p) };
+    if let Some(k) = from { q.push_str(&format!(" FROM <x:g{k}>")); }
+    q.push_str(&format!(" {{{body} }}"));
+    if !sel.order.is_empty() { q.push_str(" ORDER BY"); for (e, desc) in &sel.order { q.push_str(&if *desc { format!(" DESC({})", ce_txt(e)) } else { format!(" ({})", ce_txt(e)) }); } }
+    if let Some((start, len)) = sel.slice { if let Some(l) = len { q.push_str(&format!(" LIMIT {l}")); } if start > 0 || len.is_none() { q.push_str(&format!(" OFFSET {start}")); } }
+    q
+}
+/// the variables that a pattern can bind
+fn cpat_vars(p: &CPat) -> Vec<String> {
+    match p {
+        CPat::Base { link, unb, .. } => { let mut v = vec!["s".to_string(), "v".to_string()]; if *link { v.push("h".into()); } if *unb { v.push("zz".into()); } v }
+        CPat::Graph(CGraph::Const(_), inner) => cpat_vars(inner),
+        CPat::Graph(CGraph::Var(g), inner) => { let mut v = cpat_vars(inner); if !v.contains(g) { v.push(g.clone()); } v }
+        CPat::Sub(sel) => csel_columns(sel),
+    }
+}
+/// the graph variables that the GRAPH clauses of this SELECT's own pattern bind (not those of its sub-select)
+fn cpat_graph_vars(p: &CPat) -> Vec<String> { match p { CPat::Graph(CGraph::Var(g), inner) => { let mut v = cpat_graph_vars(inner); v.push(g.clone()); v } CPat::Graph(_, inner) => cpat_graph_vars(inner), _ => vec![] } }
+fn csel_at(sel: &mut CSel, depth: usize) -> &mut CSel {
+    if depth == 0 { return sel; }
+    fn sub(p: &mut CPat) -> &mut CSel { match p { CPat::Sub(s) => &mut **s, CPat::Graph(_, inner) => sub(inner), CPat::Base { .. } => panic!("no SELECT at that depth") } }
+    csel_at(sub(&mut sel.pat), depth - 1)
+}
+
+// ---------------------------------------------------------------- the oracle: SPARQL 1.1 section 18 on this fragment
+/// 15.1 on two keys; None: SPARQL does not decide (the generator then replaces the key)
+fn c_cmp_key(a: Option<&ST>, b: Option<&ST>) -> Option<Ordering> {
+    let (ra, rb) = (rank_of(a), rank_of(b));
+    if ra != rb { return Some(Ord::cmp(&ra, &rb)); }
+    match (a, b) {
+        (None, None) => Some(Ordering::Equal),
+        (Some(SimpleTerm::Iri(p)), Some(SimpleTerm::Iri(q))) => Some(Ord::cmp(p.as_str(), q.as_str())), // "pairs of IRIs are ordered by comparing them as simple literals"
+        (Some(p), Some(q)) => if exact_tie(p, q) { Some(Ordering::Equal) } else if ra == 3 { strict_order(p, q) } else { None },
+        _ => None,
+    }
+}
+/// Err(k): key k is the first one on which the two solutions differ and SPARQL does not order them
+fn c_cmp_rows(a: &[Option<ST>], b: &[Option<ST>], order: &[(CE, bool)]) -> Result<Ordering, usize> {
+    for k in 0..order.len() { match c_cmp_key(a[k].as_ref(), b[k].as_ref()) { None => return Err(k), Some(Ordering::Equal) => {} Some(o) => return Ok(if order[k].1 { o.reverse() } else { o }) } }
+    Ok(Ordering::Equal)
+}
+/// `wrong_ctx`: NOT the semantics, a measuring device: sort keys evaluated against the default graph whatever the active graph is
+struct COracle<'a> { quads: &'a [CQuad], wrong_ctx: bool, max_sorted: std::cell::Cell<usize>, sorts_in_named: std::cell::Cell<usize> }
+impl COracle<'_> {
+    fn is_named(&self, g: &ST) -> bool { self.quads.iter().any(|q| q.1.as_ref().map_or(false, |n| same_term(n, g))) }
+    fn names(&self) -> Vec<ST> { let mut v: Vec<ST> = vec![]; for q in self.quads { if let Some(g) = &q.1 { if !v.iter().any(|x| same_term(x, g)) { v.push(g.clone()); } } } v }
+    fn in_graph(qg: &Option<ST>, active: &Option<ST>) -> bool { match (qg, active) { (None, None) => true, (Some(a), Some(b)) => same_term(a, b), _ => false } }
+    /// the extensions of `b` that match the triple pattern in the graph `active`
+    fn match_tp(&self, tp: &CTp, b: &CSol, active: &Option<ST>) -> Vec<CSol> {
+        fn bind(n: &CNode, t: &ST, b: &mut CSol) -> bool { match n { CNode::C(c) => same_term(c, t), CNode::V(v) => match cget(b, v) { Some(x) => same_term(x, t), None => { b.push((v.clone(), t.clone())); true } } } }
+        let p = cpred(tp.p); let mut out = vec![];
+        for q in self.quads { if !Self::in_graph(&q.1, active) || !same_term(&q.0[1], &p) { continue; } let mut nb = b.clone(); if bind(&tp.s, &q.0[0], &mut nb) && bind(&tp.o, &q.0[2], &mut nb) { out.push(nb); } }
+        out
+    }
+    fn exists(&self, gs: &CGs, tp: &CTp, b: &CSol, active: &Option<ST>) -> bool {
+        match gs {
+            CGs::Active => !self.match_tp(tp, b, active).is_empty(),
+            CGs::Const(k) => { let g = cgname(*k); self.is_named(&g) && !self.match_tp(tp, b, &Some(g)).is_empty() }
+            CGs::Var(v) => match cget(b, v) {
+                Some(g) => self.is_named(g) && !self.match_tp(tp, b, &Some(g.clone())).is_empty(),
+                None => self.names().into_iter().any(|g| !self.match_tp(tp, b, &Some(g)).is_empty()),
+            },
+        }
+    }
+    fn ebv(t: &ST) -> Option<bool> { match oracle_value(t) { OV::Bool(b) => Some(b), _ => None } } // conditions are booleans in this fragment
+    fn eval(&self, e: &CE, b: &CSol, active: &Option<ST>) -> Option<ST> {
+        match e {
+            CE::Var(v) => cget(b, v).cloned(), CE::Const(t) => Some(t.clone()), CE::Bound(v) => Some(cbool(cget(b, v).is_some())),
+            CE::Exists(neg, gs, tp) => Some(cbool(self.exists(gs, tp, b, active) != *neg)),
+            CE::Not(a) => Some(cbool(!Self::ebv(&self.eval(a, b, active)?)?)),
+            CE::Coalesce(p, q) => self.eval(p, b, active).or_else(|| self.eval(q, b, active)),
+            CE::If(c, t, f) => if Self::ebv(&self.eval(c, b, active)?)? { self.eval(t, b, active) } else { self.eval(f, b, active) },
+        }
+    }
+    fn base(&self, link: bool, unb: bool, active: &Option<ST>) -> Vec<CSol> {
+        let mut out = vec![];
+        for alt in [false, true] { if alt && !unb { continue; } let mut cur: Vec<CSol> = vec![vec![]]; for tp in cbase_tps(link, alt) { cur = cur.iter().flat_map(|b| self.match_tp(&tp, b, active)).collect(); } out.extend(cur); }
+        out
+    }
+    fn eval_pat(&self, p: &CPat, active: &Option<ST>, depth: usize) -> Result<Vec<CSol>, CErr> {
+        match p {
+            CPat::Base { link, unb, .. } => Ok(self.base(*link, *unb, active)),
+            CPat::Graph(CGraph::Const(k), inner) => { let g = cgname(*k); if self.is_named(&g) { self.eval_pat(inner, &Some(g), depth) } else { Ok(vec![]) } }
+            CPat::Graph(CGraph::Var(v), inner) => {
+                let mut out = vec![];
+                for g in self.names() { for mut b in self.eval_pat(inner, &Some(g.clone()), depth)? { match cget(&b, v) { Some(t) => if same_term(t, &g) { out.push(b) }, None => { b.push((v.clone(), g.clone())); out.push(b) } } } }
+                Ok(out)
+            }
+            CPat::Sub(sel) => self.eval_sel(sel, active, depth + 1),
+        }
+    }
+    /// 18.2.4 / 18.2.5: pattern, SELECT expressions, ORDER BY, projection, LIMIT / OFFSET
+    fn eval_sel(&self, sel: &CSel, active: &Option<ST>, depth: usize) -> Result<Vec<CSol>, CErr> {
+        let mut rows = self.eval_pat(&sel.pat, active, depth)?;
+        for (e, v) in &sel.selx { for b in rows.iter_mut() { if let Some(t) = self.eval(e, b, active) { b.push((v.clone(), t)); } } }
+        if !sel.order.is_empty() {
+            let key_graph = if self.wrong_ctx { &None } else { active };
+            let keys: Vec<Vec<Option<ST>>> = rows.iter().map(|b| sel.order.iter().map(|(e, _)| self.eval(e, b, key_graph)).collect()).collect();
+            for i in 0..rows.len() { for j in i + 1..rows.len() { match c_cmp_rows(&keys[i], &keys[j], &sel.order) { Err(k) => return Err(CErr::Undet(depth, k)), Ok(Ordering::Equal) => return Err(CErr::Tie(depth)), Ok(_) => {} } } }
+            let mut idx: Vec<usize> = (0..rows.len()).collect();
+            idx.sort_by(|p, q| c_cmp_rows(&keys[*p], &keys[*q], &sel.order).unwrap());
+            rows = idx.into_iter().map(|i| rows[i].clone()).collect();
+            self.max_sorted.set(self.max_sorted.get().max(rows.len()));
+            if active.is_some() && rows.len() >= 2 { self.sorts_in_named.set(self.sorts_in_named.get() + 1); }
+        }
+        let cols = csel_columns(sel);
+        for b in rows.iter_mut() { b.retain(|p| cols.contains(&p.0)); }
+        if let Some((start, len)) = sel.slice { rows = rows.into_iter().skip(start).take(len.unwrap_or(usize::MAX)).collect(); }
+        Ok(rows)
+    }
+}
+
+// ---------------------------------------------------------------- the Coq image of a context case (C14/Context.v)
+fn c_item(t: &ST) -> Result<String, String> { Ok(format!("(mkItem {} {})", coq_term_c(t), coq_value(t)?)) }
+fn c_node_coq(n: &CNode) -> String { match n { CNode::V(v) => format!("(NV {})", cvar_id(v)), CNode::C(t) => format!("(NC {})", coq_term_c(t)) } }
+fn c_tp_coq(tp: &CTp) -> String { format!("(mkTP {} (NC {}) {})", c_node_coq(&tp.s), coq_term_c(&cpred(tp.p)), c_node_coq(&tp.o)) }
+fn c_expr_coq(e: &CE) -> Result<String, String> {
+    Ok(match e {
+        CE::Var(v) => format!("(EVar {})", cvar_id(v)), CE::Const(t) => format!("(EConst {})", c_item(t)?), CE::Bound(v) => format!("(EBound {})", cvar_id(v)), CE::Not(a) => format!("(ENot {})", c_expr_coq(a)?),
+        CE::Exists(neg, gs, tp) => { let g = match gs { CGs::Active => "GActive".to_string(), CGs::Const(k) => format!("(GConst {})", coq_term_c(&cgname(*k))), CGs::Var(v) => format!("(GVar {})", cvar_id(v)) }; let ex = format!("(EExists {g} {})", c_tp_coq(tp)); if *neg { format!("(ENot {ex})") } else { ex } }
+        CE::Coalesce(a, b) => format!("(ECoalesce {} {})", c_expr_coq(a)?, c_expr_coq(b)?), CE::If(c, t, f) => format!("(EIf {} {} {})", c_expr_coq(c)?, c_expr_coq(t)?, c_expr_coq(f)?),
+    })
+}
+fn c_pat_coq(p: &CPat) -> Result<String, String> {
+    Ok(match p {
+        CPat::Base { link, unb, flip } => { let bgp = |alt: bool| format!("(CBgp {})", coq_list(cbase_tps(*link, alt).iter().map(c_tp_coq))); if *unb { if *flip { format!("(CUnion {} {})", bgp(true), bgp(false)) } else { format!("(CUnion {} {})", bgp(false), bgp(true)) } } else { bgp(false) } }
+        CPat::Graph(CGraph::Const(k), inner) => format!("(CGraphC {} {})", coq_term_c(&cgname(*k)), c_pat_coq(inner)?),
+        CPat::Graph(CGraph::Var(v), inner) => format!("(CGraphV {} {})", cvar_id(v), c_pat_coq(inner)?),
+        CPat::Sub(sel) => c_sel_coq(sel)?,
+    })
+}
+/// the algebra that spargebra builds: Slice(Project(OrderBy(Extend*(pattern))))
+fn c_sel_coq(sel: &CSel) -> Result<String, String> {
+    let mut q = c_pat_coq(&sel.pat)?;
+    for (e, v) in &sel.selx { q = format!("(CExtend {} {} {q})", cvar_id(v), c_expr_coq(e)?); }
+    if !sel.order.is_empty() { let mut ks = vec![]; for (e, d) in &sel.order { ks.push(format!("({}, {})", c_expr_coq(e)?, coq_bool(*d))); } q = format!("(COrder {} {q})", coq_list(ks)); }
+    q = format!("(CProject {} {q})", coq_list(csel_columns(sel).iter().map(|v| cvar_id(v).to_string())));
+    if let Some((start, len)) = sel.slice { q = format!("(CSlice {start} {} {q})", len.map_or("None".to_string(), |l| format!("(Some {l})"))); }
+    Ok(q)
+}
+
+// ---------------------------------------------------------------- generator of context cases
+struct CCase { quads: Vec<CQuad>, top: CSel, from: Option<usize>, store: u8, entry: u8, shape: String }
+impl CCase {
+    /// FROM <x:gk>: that graph is the default graph of the query (no GRAPH clause is generated then: sophia keeps all the named graphs)
+    fn start(&self) -> Option<ST> { self.from.map(cgname) }
+    fn query(&self) -> String { csel_txt_from(&self.top, self.from) }
+}
+fn ce_no_graph(e: &mut CE) { match e { CE::Exists(_, gs, _) => *gs = CGs::Active, CE::Not(a) => ce_no_graph(a), CE::Coalesce(a, b) => { ce_no_graph(a); ce_no_graph(b) } CE::If(a, b, c) => { ce_no_graph(a); ce_no_graph(b); ce_no_graph(c) } _ => {} } }
+fn c_gen_tp(r: &mut Rng, gs: &CGs) -> CTp {
+    let v = |n: &str| CNode::V(n.to_string());
+    let mut tp = match r.below(11) {
+        0..=3 => CTp { s: v("s"), p: "flag", o: CNode::C(iri("x:yes")) },
+        4 => CTp { s: v("s"), p: "w", o: v("v") }, 5 => CTp { s: v("e"), p: "w", o: v("v") }, 6 => CTp { s: v("s"), p: "v", o: v("e") }, 7 => CTp { s: v("s"), p: "v", o: v("v") },
+        8 => CTp { s: v("s"), p: "in", o: v(r.ps(&["g", "h", "g2", "e"])) }, 9 => CTp { s: v("s"), p: "w", o: v("e") },
+        _ => CTp { s: v("e"), p: "flag", o: CNode::C(iri("x:yes")) },
+    };
+    // the variable of GRAPH ?x { .. } does not occur inside its braces (it would be a join with the graph name)
+    if let (CGs::Var(g), CNode::V(o)) = (gs, &tp.o) { if g == o { tp.o = v("e"); } }
+    tp
+}
+fn c_gen_bool(r: &mut Rng, d: usize) -> CE {
+    match r.below(9) {
+        5 => CE::Bound(r.ps(&["v", "zz", "g", "h", "u", "g2", "k0", "k3"]).to_string()),
+        6 if d > 0 => CE::Not(Box::new(c_gen_bool(r, d - 1))),
+        7 if d > 0 => CE::If(Box::new(c_gen_bool(r, d - 1)), Box::new(c_gen_bool(r, d - 1)), Box::new(c_gen_bool(r, d - 1))),
+        _ => { let gs = match r.below(10) { 0..=5 => CGs::Active, 6 | 7 => CGs::Const(r.below(4)), _ => CGs::Var(r.ps(&["g", "h", "g2", "u"]).to_string()) }; let tp = c_gen_tp(r, &gs); CE::Exists(r.chance(1, 3), gs, tp) }
+    }
+}
+fn c_gen_num(r: &mut Rng, d: usize) -> CE {
+    let var = |n: &str| Box::new(CE::Var(n.to_string()));
+    let int = |r: &mut Rng| CE::Const(x(&(r.below(9) as i64 - 2).to_string(), "integer"));
+    match r.below(9) {
+        0 | 1 => CE::Var("v".into()), 2 => int(r), 3 => CE::Var(r.ps(&["s", "g", "h", "zz", "u", "v", "g2"]).to_string()),
+        4 if d > 0 => CE::If(Box::new(c_gen_bool(r, 1)), Box::new(c_gen_num(r, d - 1)), Box::new(c_gen_num(r, d - 1))),
+        5 => CE::Coalesce(Box::new(CE::If(Box::new(c_gen_bool(r, 1)), var("v"), var("u"))), Box::new(int(r))),
+        6 if d > 0 => CE::Coalesce(var(r.ps(&["zz", "h", "v", "u", "g"])), Box::new(c_gen_num(r, d - 1))),
+        7 if d > 0 => CE::Coalesce(Box::new(CE::If(Box::new(c_gen_bool(r, 0)), Box::new(c_gen_num(r, d - 1)), var("u"))), Box::new(c_gen_num(r, d - 1))),
+        _ => CE::If(Box::new(c_gen_bool(r, 0)), var("v"), Box::new(int(r))),
+    }
+}
+fn c_gen_case(r: &mut Rng) -> CCase {
+    // ---- the dataset: a default graph and up to three named graphs that tell different stories about the same subjects
+    let n = r.range(3, 7); let unb = r.chance(1, 4); let link = r.chance(1, 5);
+    let val = |r: &mut Rng| -> ST { let i = r.below(9) as i64 - 2; match r.below(16) { 0 => x(&format!("{i}.0"), "decimal"), 1 if i >= 0 => x(&format!("0{i}"), "integer"), 2 => iri(&format!("x:i{}", r.below(4))), _ => x(&i.to_string(), "integer") } };
+    let mut quads: Vec<CQuad> = vec![];
+    let ng = r.range(1, 3);
+    for g in std::iter::once(None).chain((0..ng).map(Some)) {
+        let gn = g.map(cgname); let present = r.range(3, 5);
+        for i in 0..n {
+            let s = iri(&format!("x:s{i}"));
+            if r.chance(present, 5) { if unb && r.chance(1, 4) { quads.push(([s.clone(), cpred("n"), x("0", "integer")], gn.clone())); } else { quads.push(([s.clone(), cpred("v"), val(r)], gn.clone())); } }
+            if r.chance(1, 2) { quads.push(([s.clone(), cpred("flag"), iri("x:yes")], gn.clone())); }
+            if r.chance(1, 2) { quads.push(([s.clone(), cpred("w"), val(r)], gn.clone())); }
+            if r.chance(if link { 5 } else { 1 }, 6) { quads.push(([s.clone(), cpred("in"), cgname(r.below(4))], gn.clone())); }
+        }
+    }
+    // ---- the chain of SELECTs, innermost first
+    // (FROM <g> would be one more way to choose the active graph of the outermost SELECT, but sophia_sparql answers
+    // NotImplemented("FROM NAMED") to every query that has a FROM clause)
+    let from: Option<usize> = None;
+    let depth = match r.below(10) { 0 => 1, 1..=6 => 2, _ => 3 };
+    let gvars = ["g", "g2", "g3"]; let mut next_gvar = 0;
+    let mut wrap = |r: &mut Rng, p: CPat, force: bool| -> (CPat, String) {
+        match if from.is_some() { 8 } else { r.below(if force { 6 } else { 9 }) } {
+            0..=2 => (CPat::Graph(CGraph::Const(if r.chance(1, 10) { 3 } else { r.below(ng) }), Box::new(p)), "G".into()),
+            3..=5 => { let g = gvars[next_gvar]; next_gvar += 1; (CPat::Graph(CGraph::Var(g.into()), Box::new(p)), "V".into()) }
+            _ => (p, "".into()),
+        }
+    };
+    let mut shape = String::new();
+    let base = CPat::Base { link, unb, flip: r.chance(1, 2) };
+    let (mut pat, w) = if r.chance(1, 3) { wrap(r, base, true) } else { (base, String::new()) };
+    shape.push_str(&format!("B{}", w.to_lowercase()));
+    let mut sel: Option<CSel> = None;
+    for level in (0..depth).rev() {
+        // level depth-1 is the innermost SELECT, level 0 the outermost one
+        if let Some(inner) = sel.take() { let (p, w) = wrap(r, CPat::Sub(Box::new(inner)), false); pat = p; shape.push_str(&w); }
+        let innermost = level == depth - 1;
+        let avail = cpat_vars(&pat);
+        let mut proj: Vec<String> = vec!["s".into()];
+        for v in &avail { if v != "s" && (level == 0 || r.chance(3, 4)) { proj.push(v.clone()); } }
+        let ordered = innermost || r.chance(1, 2);
+        let mut s = CSel { proj, selx: vec![], pat: pat.clone(), order: vec![], slice: None };
+        if ordered {
+            for i in 0..r.range(1, 3) {
+                // the first key is, one time in two, a test on the active graph (possibly wrapped): the keys that follow break its ties
+                let e = if i == 0 && r.chance(1, 2) { let t = CE::Exists(r.chance(1, 3), CGs::Active, c_gen_tp(r, &CGs::Active)); match r.below(6) { 0 => CE::If(Box::new(t), Box::new(CE::Var("v".into())), Box::new(CE::Var("u".into()))), 1 => CE::Coalesce(Box::new(CE::If(Box::new(t), Box::new(CE::Var("v".into())), Box::new(CE::Var("u".into())))), Box::new(CE::Const(x("1", "integer")))), _ => t } }
+                    else if r.chance(1, 2) { c_gen_bool(r, 1) } else { c_gen_num(r, 1) };
+                let mut e = e; if from.is_some() { ce_no_graph(&mut e); }
+                let desc = r.chance(2, 5);
+                if r.chance(1, 10) { let k = format!("k{}", level * 3 + i); s.selx.push((e, k.clone())); s.order.push((CE::Var(k), desc)); } else { s.order.push((e, desc)); }
+            }
+            if r.chance(if level == 0 { 1 } else { 5 }, 6) { s.slice = Some((r.below(3), if r.chance(1, 8) { None } else { Some(r.range(1, 3)) })); }
+        }
+        shape.push_str(if ordered { if s.slice.is_some() { "Sw" } else { "So" } } else { "Su" });
+        sel = Some(s);
+    }
+    let mut top = sel.unwrap();
+    // ---- make every ORDER BY decisive: a key on which SPARQL has no opinion is replaced, complete ties get final keys
+    for _ in 0..12 {
+        let o = COracle { quads: &quads, wrong_ctx: false, max_sorted: Default::default(), sorts_in_named: Default::default() };
+        match o.eval_sel(&top, &from.map(cgname), 0) {
+            Ok(_) => break,
+            Err(CErr::Undet(d, k)) => { csel_at(&mut top, d).order[k].0 = CE::Var("s".into()); }
+            Err(CErr::Tie(d)) => {
+                let s = csel_at(&mut top, d);
+                let mut extra: Vec<String> = vec!["s".into()]; extra.extend(cpat_graph_vars(&s.pat));
+                let have = |s: &CSel, v: &str| s.order.iter().any(|(e, _)| matches!(e, CE::Var(x) if x == v));
+                let mut added = false;
+                for v in extra { if !have(s, &v) { let desc = r.chance(1, 3); s.order.push((CE::Var(v), desc)); added = true; } }
+                if !added { s.order.clear(); s.slice = None; } // cannot happen: (?s, graph variables) identify a solution
+            }
+        }
+    }
+    if from.is_some() { shape.push_str("+FROM"); }
+    CCase { quads, top, from, store: r.below(3) as u8, entry: r.below(3) as u8, shape }
+}
+fn exec_store(quads: &[CQuad], store: u8, entry: u8, q: &str) -> Result<QRows, String> {
+    let res = std::panic::catch_unwind(std::panic::AssertUnwindSafe(|| -> Result<QRows, String> {
+        match store {
+            0 => { let v: Vec<CQuad> = quads.to_vec(); exec_on(&v, entry, q) }
+            1 => { let mut d = sophia_inmem::dataset::LightDataset::new(); for (spo, g) in quads { d.insert(&spo[0], &spo[1], &spo[2], g.as_ref()).map_err(|e| format!("insert: {e:?}"))?; } exec_on(&d, entry, q) }
+            _ => { let mut d = sophia_inmem::dataset::FastDataset::new(); for (spo, g) in quads { d.insert(&spo[0], &spo[1], &spo[2], g.as_ref()).map_err(|e| format!("insert: {e:?}"))?; } exec_on(&d, entry, q) }
+        }
+    }));
+    match res { Ok(r) => r, Err(_) => Err(format!("PANIC while evaluating {q}")) }
+}
+fn c_describe(c: &CCase) -> String {
+    let mut gs: Vec<Option<ST>> = vec![None]; for q in &c.quads { if !gs.iter().any(|g| match (g, &q.1) { (None, None) => true, (Some(a), Some(b)) => same_term(a, b), _ => false }) { gs.push(q.1.clone()); } }
+    let data: Vec<String> = gs.iter().map(|g| format!("{}: {{ {} }}", g.as_ref().map_or("default graph".to_string(), show),
+        c.quads.iter().filter(|q| match (g, &q.1) { (None, None) => true, (Some(a), Some(b)) => same_term(a, b), _ => false }).map(|q| format!("{} {} {}", show(&q.0[0]), show(&q.0[1]), show(&q.0[2]))).collect::<Vec<_>>().join(" . "))).collect();
+    format!("{} | data {} | store {} | entry {}", c.query().replace(XSD, "xsd:"), data.join("; "), ["Vec of quads", "LightDataset", "FastDataset"][c.store as usize], ["SparqlQuery::parse + query", "prepare_query + query", "query(&str)"][c.entry as usize])
+}
+fn run_ccase(c: &CCase, verbose: bool) -> QOut {
+    let text = c_describe(c);
+    let q = c.query();
+    let cols = csel_columns(&c.top);
+    let mut bumps = vec![format!("c:shape:{}", c.shape), format!("c:store{}", c.store), format!("c:entry{}", c.entry)];
+    let fail = |f: String, bumps: Vec<String>| QOut { text: text.clone(), desc: f.clone(), failure: Some(if f.starts_with("PANIC") { format!("sorting panicked: {f}") } else { f }), body: None, tags: vec![], bumps };
+    // ---- what SPARQL prescribes
+    let o = COracle { quads: &c.quads, wrong_ctx: false, max_sorted: Default::default(), sorts_in_named: Default::default() };
+    let want = match o.eval_sel(&c.top, &c.start(), 0) { Ok(r) => r, Err(e) => return fail(format!("internal: the generated case is not decisive ({e:?})"), bumps) };
+    let row_txt = |r: &Vec<Option<ST>>| cols.iter().zip(r.iter()).map(|(v, t)| format!("?{v}={}", t.as_ref().map_or("UNBOUND".into(), show))).collect::<Vec<_>>().join(" ");
+    let want_rows: Vec<Vec<Option<ST>>> = want.iter().map(|b| cols.iter().map(|v| cget(b, v).cloned()).collect()).collect();
+    // a measure of the case: would the answer change if the keys were evaluated against the default graph?
+    let w = COracle { quads: &c.quads, wrong_ctx: true, max_sorted: Default::default(), sorts_in_named: Default::default() };
+    let ordered = !c.top.order.is_empty();
+    let canon = |rows: &Vec<Vec<Option<ST>>>| -> Vec<String> { let mut v: Vec<String> = rows.iter().map(&row_txt).collect(); if !ordered { v.sort(); } v };
+    let sensitive = match w.eval_sel(&c.top, &c.start(), 0) { Ok(r) => { let rr: Vec<Vec<Option<ST>>> = r.iter().map(|b| cols.iter().map(|v| cget(b, v).cloned()).collect()).collect(); canon(&rr) != canon(&want_rows) } Err(_) => true };
+    if sensitive { bumps.push("c:answer-depends-on-the-active-graph-of-a-key".into()); }
+    if o.sorts_in_named.get() > 0 { bumps.push("c:sorts-2+-solutions-in-a-named-graph".into()); }
+    fn walk(s: &CSel, d: usize, bumps: &mut Vec<String>) {
+        for e in s.order.iter().map(|x| &x.0).chain(s.selx.iter().map(|x| &x.0)) { fn kinds(e: &CE, out: &mut Vec<&'static str>) { match e { CE::Var(_) => out.push("var"), CE::Const(_) => out.push("const"), CE::Bound(_) => out.push("bound"), CE::Not(a) => { out.push("not"); kinds(a, out) } CE::Exists(neg, gs, _) => out.push(match (neg, gs) { (false, CGs::Active) => "exists-active", (true, CGs::Active) => "not-exists-active", (_, CGs::Const(_)) => "exists-graph-const", (_, CGs::Var(_)) => "exists-graph-var" }), CE::Coalesce(a, b) => { out.push("coalesce"); kinds(a, out); kinds(b, out) } CE::If(a, b, c) => { out.push("if"); kinds(a, out); kinds(b, out); kinds(c, out) } } }
+            let mut k = vec![]; kinds(e, &mut k); k.sort(); k.dedup(); for x in k { bumps.push(format!("c:key:{x}")); } }
+        if !s.selx.is_empty() { bumps.push("c:key-through-select-expression".into()); }
+        if s.slice.is_some() && d > 0 { bumps.push("c:window-in-sub-select".into()); }
+        fn sub(p: &CPat) -> Option<&CSel> { match p { CPat::Sub(s) => Some(s), CPat::Graph(_, i) => sub(i), _ => None } }
+        if let Some(i) = sub(&s.pat) { walk(i, d + 1, bumps); }
+    }
+    walk(&c.top, 0, &mut bumps);
+    // ---- what the implementation answers
+    let got = match exec_store(&c.quads, c.store, c.entry, &q) { Ok(r) => r, Err(e) => return fail(e, bumps) };
+    let got_rows: Vec<Vec<Option<ST>>> = got.iter().map(|r| r.iter().map(|x| x.as_ref().map(|p| p.0.clone())).collect()).collect();
+    let mut failure = None;
+    if got_rows.iter().any(|r| r.len() != cols.len()) { failure = Some(format!("the result has not the {} columns of the SELECT clause", cols.len())); }
+    else if canon(&got_rows) != canon(&want_rows) {
+        failure = Some(format!("(ix) ORDER BY in its evaluation context: the query returns {} [{}] but with every sort key evaluated where SPARQL evaluates it (the active graph of the SELECT that the ORDER BY belongs to; 18.6 for EXISTS) the {} are [{}]",
+            if ordered { "the sequence" } else { "the solutions" }, got_rows.iter().map(&row_txt).collect::<Vec<_>>().join("; "), if ordered { "ordered solutions" } else { "solutions (in any order)" }, want_rows.iter().map(&row_txt).collect::<Vec<_>>().join("; ")));
+    }
+    // ---- the Coq image
+    let body = (|| -> Result<String, String> {
+        let mut qs = vec![]; for (spo, g) in &c.quads { qs.push(format!("mkQ {} {} {} {}", g.as_ref().map_or("None".to_string(), |g| format!("(Some {})", coq_term_c(g))), coq_term_c(&spo[0]), coq_term_c(&spo[1]), c_item(&spo[2])?)); }
+        let mut rows = vec![]; for r in &got { let mut cells = vec![]; for x in r { cells.push(match x { Some((t, d)) => KeyObs { term: Some(t.clone()), dbg: d.clone() }.coq()?, None => "None".to_string() }); } rows.push(coq_list(cells)); }
+        Ok(format!("ctx_ok_at {} {} {} {} {}", match c.start() { Some(g) => format!("[Some {}]", coq_term_c(&g)), None => "default_matcher".to_string() }, coq_list(qs), c_sel_coq(&c.top)?, coq_list(cols.iter().map(|v| cvar_id(v).to_string())), coq_list(rows)))
+    })();
+    let body = match body { Ok(b) => Some(b), Err(e) => return fail(e, bumps) };
+    let desc = format!("returned [{}]", got_rows.iter().map(&row_txt).collect::<Vec<_>>().join("; "));
+    let mut tags = vec![]; if o.max_sorted.get() >= 2 { tags.push("c:sorted-2+".to_string()); tags.push(format!("c:{}", c.shape)); }
+    if verbose { println!("  query: {q}"); }
+    QOut { text, desc, failure, body, tags, bumps }
+}
+
 const TRIPLE_BASE: usize = 1_000_000_000;
 const PAIR_BASE: usize = 3_000_000_000;
 fn coq_key(k: Key) -> String { match k { Some(i) => format!("(Some p{i})"), None => "None".into() } }
@@ -952,7 +1345,9 @@ case = either an ordered pair of keys (comparator observed by sorting the two-el
 non-trivial = the keys of the case span at least two value classes (kind / numeric type / NaN / ill-typed / string / boolean / dateTime zone-ness) ; distinct = distinct (keys, directions); \
 additionally every run sorts all 2-element multisets of the swept pool and checks the observed comparator on all triples (oracle iv); \
 end-to-end cases (kinds q:*): 2..8 (sometimes 12..45) solutions with operands ?a ?b ?c (pool terms, integers around the ends of the isize range, cancelling sums/differences/products, an unbound last operand, named graphs), 1..4 criteria that are expressions (arithmetic of depth <= 2, string/boolean/conditional/date functions, plain variables, keys computed from an earlier BIND-ed key) given directly in ORDER BY, through BIND or through a SELECT expression, ASC/DESC mixes, over a Vec of quads / LightDataset / FastDataset, through SparqlQuery::parse / prepare_query / query(&str), optionally with FILTER, LIMIT/OFFSET, DISTINCT; the keys are observed through BIND; \
-oracle on them: permutation, kind ranks, '<' from the lexical forms, (v) exactly equal values written differently are tied and the next key decides, (vi) the engine's own '<' (BIND and FILTER over all ordered pairs) never contradicts the output, (vii) a window is the window of the complete result, (viii) DISTINCT keeps the order".into();
+oracle on them: permutation, kind ranks, '<' from the lexical forms, (v) exactly equal values written differently are tied and the next key decides, (vi) the engine's own '<' (BIND and FILTER over all ordered pairs) never contradicts the output, (vii) a window is the window of the complete result, (viii) DISTINCT keeps the order; \
+context cases (kinds c:*): 3..7 subjects described differently by a default graph and 1..3 named graphs (values, flags, links to graph names, unbound values), a chain of 1..3 SELECTs nested directly or through GRAPH <g> / GRAPH ?g (shape string: B base pattern, g/v a GRAPH around it, G/V a GRAPH around a sub-select, So ordered, Sw ordered with LIMIT/OFFSET, Su unordered), 1..3 keys per ORDER BY among EXISTS / NOT EXISTS over a triple pattern of the active graph, of GRAPH <g>, of GRAPH ?x (bound or not), BOUND, '!', IF, COALESCE, variables (graph variables included) and constants, directly or through a SELECT expression; every ORDER BY is made free of ties (final keys ?s and the graph variables if needed); \
+oracle on them: (ix) the result equals the SPARQL 1.1 section 18 evaluation in which each key is evaluated in the active graph of its SELECT (sequence if the outermost SELECT is ordered, multiset otherwise); non-trivial = some ORDER BY of the case sorts at least two solutions".into();
     let mut terms = pool_terms();
     let nsweep = terms.len();
     terms.extend(extra_terms());
@@ -960,7 +1355,7 @@ oracle on them: permutation, kind ranks, '<' from the lexical forms, (v) exactly
     let np_all = pool.terms.len();
     let np = nsweep; // the exhaustive sweep (oracle iv) and its replay stay on the first `nsweep` terms
     // header: the pool as Coq items (term + the value the implementation parsed)
-    let mut header = String::from("From Sophia.C14 Require Import Model.\n");
+    let mut header = String::from("From Sophia.C14 Require Import Model Context.\n");
     header.push_str(&xd_header());
     let mut class_tag: Vec<String> = vec![];
     for (i, t) in pool.terms.iter().enumerate() {
@@ -1052,7 +1447,7 @@ oracle on them: permutation, kind ranks, '<' from the lexical forms, (v) exactly
         for j in i + 1..np_all { if !done[j] && pool.terms[j].kind() == TermKind::Literal && !same_term(&pool.terms[i], &pool.terms[j]) && exact_tie(&pool.terms[i], &pool.terms[j]) { f.push(j); done[j] = true; } }
         if f.len() >= 2 { fams.push(f); } } }
     sum.extra.push(("tie_families".into(), fams.len().to_string()));
-    let mut q_samples = 0;
+    let mut q_samples = 0; let mut c_samples = 0;
     for idx in range {
         let mut r = base.fork(idx as u64);
         let draw = |r: &mut Rng, focus: &Option<Vec<usize>>| -> Key {
@@ -1063,8 +1458,23 @@ oracle on them: permutation, kind ranks, '<' from the lexical forms, (v) exactly
         // value comparisons and fallbacks meet; the others draw from the whole pool
         let focus: Option<Vec<usize>> = if r.chance(1, 2) { let mut f = r.pick(&classes).1.clone(); if r.chance(1, 2) { f.extend(r.pick(&classes).1.iter().copied()); } Some(f) } else { None };
         // kinds 0..19: keys that are pool terms (pairs, rows); kinds 20..: end-to-end queries with computed keys
-        let kind = r.below(40);
+        let kind = r.below(48);
         let (text, body, desc_txt, failure, keys_flat): (String, Option<String>, String, Option<String>, Vec<Key>);
+        if kind >= 40 {
+            // ORDER BY in its evaluation context
+            let c = c_gen_case(&mut r);
+            if a.only.is_some() { println!("CASE {idx}: {}", c_describe(&c)); }
+            let o = run_ccase(&c, a.only.is_some());
+            for b in &o.bumps { sum.bump(b); }
+            if let Some(f) = &o.failure { sum.oracle_failures.push((idx.to_string(), format!("query {} : {f}  [case: {}]", c.query().replace(XSD, "xsd:"), o.text))); }
+            if a.only.is_some() { println!("  => {}\n  oracle: {}\n  coq: {}", o.desc, o.failure.clone().unwrap_or("ok".into()), o.body.clone().unwrap_or("-".into())); }
+            let nontrivial = !o.tags.is_empty();
+            if seen.insert(o.text.clone()) && nontrivial { sum.distinct_nontrivial += 1; }
+            if c_samples < 3 && nontrivial && o.failure.is_none() && o.text.len() + o.desc.len() < 1800 && o.bumps.iter().any(|b| b.starts_with("c:answer-depends")) { c_samples += 1; sum.samples.push(format!("case {idx}: {} => {}", o.text, o.desc)); }
+            sum.evaluations += 1;
+            if let Some(b) = o.body { cases.push((idx, b)); }
+            continue;
+        }
         if kind >= 20 {
             let sub = match kind { 20..=24 => 0, 25..=28 => 1, 29..=31 => 2, 32..=35 => 3, _ => 4 };
             let g = Gen { pool: &pool, fams: &fams, classes: &classes, np: np_all };
